@@ -280,8 +280,9 @@ func c20Run(f []string) (out []string) {
 type c20Builder struct {
 	file  c20File
 	offs  []int64
-	cur   int64 // next free timestamp offset
-	bytes int
+	cur    int64 // next free timestamp offset
+	bytes  int
+	maxGap int64
 }
 
 func (b *c20Builder) gap(r *rand.Rand, count int) int64 {
@@ -290,6 +291,9 @@ func (b *c20Builder) gap(r *rand.Rand, count int) int64 {
 		return 1
 	}
 	g := []int64{1, 1, 2, 3, 10, 1000, 999_999, 1_000_000, 1_000_000_000, 1 + r.Int64N(5_000_000_000)}[r.IntN(10)]
+	if g > b.maxGap {
+		g = 1 + r.Int64N(b.maxGap)
+	}
 	if g > room {
 		g = 1 + r.Int64N(room)
 	}
@@ -314,6 +318,9 @@ func (b *c20Builder) addJ(r *rand.Rand, count, n int) {
 		b.bytes += len(c20JSONLine(off, n)) + 1
 	}
 	b.cur = start + int64(count-1)*step
+	if b.cur >= c20DayNs-1000 {
+		panic("c20 generator: timestamp budget exhausted")
+	}
 }
 
 func (b *c20Builder) addP(count, n int, c byte) {
@@ -330,23 +337,16 @@ func (b *c20Builder) addH(line string, off int64) {
 	b.bytes += len(line) + 1
 }
 
-// fill adds JSON lines whose total size (with newlines) is exactly total, total >= 60.
+// fill adds JSON lines whose total size (with newlines) is exactly total, total >= 51.
 func (b *c20Builder) fill(r *rand.Rand, total int, pick func() int) {
 	for total > 0 {
-		n := pick()
-		if n < 50 {
-			n = 50
-		}
-		if total-(n+1) < 60 && total-(n+1) != 0 {
-			// Finish with one or two lines that fit exactly.
-			if total-1 < maxEntrySize && total-1 >= 50 {
+		n := min(max(pick(), 50), maxEntrySize-1)
+		if rest := total - (n + 1); rest != 0 && rest < 51 {
+			if total-1 <= maxEntrySize-1 {
 				n = total - 1
 			} else {
-				n = total/2 - 1
+				n -= 60
 			}
-		}
-		if n+1 > total {
-			n = total - 1
 		}
 		b.addJ(r, 1, n)
 		total -= n + 1
@@ -382,7 +382,10 @@ func c20LenPicker(r *rand.Rand, class int) func() int {
 // c20GenFile builds one file; startOff is the first free timestamp offset.
 // malformed > 0 selects a way to leave the property's domain.
 func c20GenFile(r *rand.Rand, startOff int64, sizeClass, malformed int) *c20Builder {
-	b := &c20Builder{cur: startOff}
+	b := &c20Builder{cur: startOff, maxGap: 5_000_000_000}
+	if sizeClass >= 5 {
+		b.maxGap = 40_000_000
+	}
 	b.file.complete = true
 	switch sizeClass {
 	case 0: // empty
